@@ -130,7 +130,49 @@ inductive Tok where
   | word (s : String)
   | hms (h m s : Int)
   | num (v : Int)
+  | clock (h m s : Int) (pm : Bool)
   deriving Repr, DecidableEq, Inhabited
+
+/-- words are compared case-insensitively by the readers (`.upper()`): the model keeps them lower-cased -/
+def statusWord : Int → Option String
+  | 0 => some "closed"
+  | 1 => some "open"
+  | 2 => some "active"
+  | _ => none
+
+inductive LinkKind where
+  | pipe | pump | valve
+  deriving Repr, DecidableEq, Inhabited
+
+/-- the action of a simple control: `ControlAction(link, 'status' | 'base_speed' | 'setting', value)` -/
+inductive Act where
+  | status (s : Int)
+  | speed (v : Int)
+  | setting (v : Int)
+  deriving Repr, DecidableEq, Inhabited
+
+/-- `_write_controls.get_setting`: the status name, or the number -/
+def printAct : Act → Option Tok
+  | .status s => (statusWord s).map Tok.word
+  | .speed v => some (.num v)
+  | .setting v => some (.num v)
+
+/-- `_read_control_line`: OPEN/OPENED/CLOSED/ACTIVE give a status action; a number is the speed of a pump, the setting of a
+valve, and refused for a pipe -/
+def parseAct (k : LinkKind) : Tok → Option Act
+  | .word w => if w = "open" ∨ w = "opened" then some (.status 1) else if w = "closed" then some (.status 0)
+               else if w = "active" then some (.status 2) else none
+  | .num v => match k with
+    | .pump => some (.speed v)
+    | .valve => some (.setting v)
+    | .pipe => none
+  | _ => none
+
+/-- an action the [CONTROLS] syntax can carry for a link of that kind -/
+def Act.wf (k : LinkKind) : Act → Prop
+  | .status s => 0 ≤ s ∧ s ≤ 2
+  | .speed _ => k = .pump
+  | .setting _ => k = .valve
 
 inductive NodeKind where
   | junction | tank
@@ -155,7 +197,7 @@ inductive CtlCond where
 structure Ctl where
   linkType : String
   link : String
-  setting : Tok
+  act : Act
   cond : CtlCond
   deriving Repr, DecidableEq, Inhabited
 
@@ -163,34 +205,38 @@ def kindWord : NodeKind → String
   | .junction => "Junction"
   | .tank => "Tank"
 
-/-- `_write_controls` (repaired: time as `h:mm:ss`, a head threshold reduced by the elevation) -/
-def printCtl (c : Ctl) : List Tok :=
-  let pre := [Tok.word c.linkType, .word c.link, c.setting]
-  match c.cond with
-  | .time sec => let (h, m, s) := hmsOf sec; pre ++ [.word "AT", .word "TIME", .hms h m s]
-  | .clock sec => let (h, m, s) := hmsOf sec; pre ++ [.word "AT", .word "CLOCKTIME", .hms h m s]
+def condToks : CtlCond → List Tok
+  | .time sec => [.word "AT", .word "TIME", .hms (hmsOf sec).1 (hmsOf sec).2.1 (hmsOf sec).2.2]
+  | .clock sec => [.word "AT", .word "CLOCKTIME", .hms (hmsOf sec).1 (hmsOf sec).2.1 (hmsOf sec).2.2]
   | .node k n e a ab th =>
-    pre ++ [.word "IF", .word (kindWord k), .word n, .word (if ab then "above" else "below"),
-            .num (if a = .head then th - e else th)]
+    [.word "IF", .word (kindWord k), .word n, .word (if ab then "above" else "below"), .num (if a = .head then th - e else th)]
+
+/-- `_write_controls` (repaired: time as `h:mm:ss`, a head threshold reduced by the elevation); `none`: the control is skipped -/
+def printCtl (c : Ctl) : Option (List Tok) :=
+  (printAct c.act).map fun st => [Tok.word c.linkType, .word c.link, st] ++ condToks c.cond
 
 /-- the writer before the repair of the head threshold -/
-def printCtlLegacy (c : Ctl) : List Tok :=
+def printCtlLegacy (c : Ctl) : Option (List Tok) :=
   match c.cond with
   | .node k n _ _ ab th =>
-    [Tok.word c.linkType, .word c.link, c.setting, .word "IF", .word (kindWord k), .word n, .word (if ab then "above" else "below"), .num th]
+    (printAct c.act).map fun st =>
+      [Tok.word c.linkType, .word c.link, st, .word "IF", .word (kindWord k), .word n, .word (if ab then "above" else "below"), .num th]
   | _ => printCtl c
 
-/-- `_read_control_line`; `lookup name` is `wn.get_node(name)`: kind and elevation -/
-def parseCtl (lookup : String → Option (NodeKind × Int)) : List Tok → Option Ctl
-  | [.word lt, .word l, st, .word "AT", .word "TIME", .hms h m s] => some ⟨lt, l, st, .time (strTimeToSec h m s)⟩
-  | [.word lt, .word l, st, .word "AT", .word "CLOCKTIME", .hms h m s] => some ⟨lt, l, st, .clock (strTimeToSec h m s)⟩
+/-- `_read_control_line`; `lookup name` is `wn.get_node(name)` (kind and elevation), `kindOf link` the class of the link -/
+def parseCtl (lookup : String → Option (NodeKind × Int)) (kindOf : String → Option LinkKind) : List Tok → Option Ctl
+  | [.word lt, .word l, st, .word "AT", .word "TIME", .hms h m s] =>
+    (kindOf l).bind fun k => (parseAct k st).map fun a => ⟨lt, l, a, .time (strTimeToSec h m s)⟩
+  | [.word lt, .word l, st, .word "AT", .word "CLOCKTIME", .hms h m s] =>
+    (kindOf l).bind fun k => (parseAct k st).map fun a => ⟨lt, l, a, .clock (strTimeToSec h m s)⟩
   | [.word lt, .word l, st, .word "IF", .word _, .word n, .word rel, .num th] =>
-    match lookup n with
-    | some (k, e) =>
-      if rel = "above" then some ⟨lt, l, st, .node k n e k.attr true th⟩
-      else if rel = "below" then some ⟨lt, l, st, .node k n e k.attr false th⟩
-      else none
-    | none => none
+    (kindOf l).bind fun k => (parseAct k st).bind fun a =>
+      match lookup n with
+      | some (nk, e) =>
+        if rel = "above" then some ⟨lt, l, a, .node nk n e nk.attr true th⟩
+        else if rel = "below" then some ⟨lt, l, a, .node nk n e nk.attr false th⟩
+        else none
+      | none => none
   | _ => none
 
 /-- the condition the INP line means: a head condition in the datum of the section -/
@@ -203,6 +249,89 @@ def CtlCond.wf (lookup : String → Option (NodeKind × Int)) : CtlCond → Prop
   | .node k n e a _ _ => lookup n = some (k, e) ∧ (a = .head ∨ a = k.attr)
   | .time sec => 0 ≤ sec
   | .clock sec => 0 ≤ sec
+
+/-! ### rule clauses (`_EpanetRule.add_control_condition`, `add_action_on_true/false`, `generate_control`) -/
+
+inductive Rel where
+  | gt | ge | lt | le | eq | ne
+  deriving Repr, DecidableEq, Inhabited
+
+/-- `Comparison.symbol` -/
+def Rel.symbol : Rel → String
+  | .gt => ">" | .ge => ">=" | .lt => "<" | .le => "<=" | .eq => "=" | .ne => "<>"
+
+/-- `Comparison.text` (lower-cased: `Comparison.parse` lower-cases its argument) -/
+def Rel.text : Rel → String
+  | .gt => "above" | .ge => ">=" | .lt => "below" | .le => "<=" | .eq => "is" | .ne => "not"
+
+/-- `Comparison.parse` on the words the writers produce and their synonyms -/
+def parseRel (w : String) : Option Rel :=
+  if w = "=" ∨ w = "eq" ∨ w = "==" ∨ w = "is" then some .eq
+  else if w = "<>" ∨ w = "ne" ∨ w = "!=" ∨ w = "not" then some .ne
+  else if w = ">" ∨ w = "gt" ∨ w = "above" ∨ w = "after" then some .gt
+  else if w = "<" ∨ w = "lt" ∨ w = "below" ∨ w = "before" then some .lt
+  else if w = ">=" ∨ w = "ge" then some .ge
+  else if w = "<=" ∨ w = "le" then some .le
+  else none
+
+def nodeClasses : List String := ["node", "junction", "reservoir", "tank"]
+def linkClasses : List String := ["link", "pipe", "pump", "valve"]
+
+/-- a premise of a rule; the value of a status premise is the number of the status (`_parse_value('OPEN') = 1`) -/
+inductive RAtom where
+  | sysTime (r : Rel) (sec : Int)
+  | sysClock (r : Rel) (sec : Int)
+  | value (isNode : Bool) (cls : String) (name : String) (attr : String) (r : Rel) (v : Int)
+  deriving Repr, DecidableEq, Inhabited
+
+/-- the value token: a status is printed by name (`_repr_value`), everything else as a number -/
+def valTok (attr : String) (v : Int) : Option Tok :=
+  if attr = "status" then (statusWord v).map Tok.word else some (.num v)
+
+/-- `_parse_value`: a number, or OPEN / CLOSED / ACTIVE as 1 / 0 / 2 -/
+def parseVal : Tok → Option Int
+  | .num v => some v
+  | .word w => if w = "closed" then some 0 else if w = "open" then some 1 else if w = "active" then some 2 else none
+  | _ => none
+
+def printAtom : RAtom → Option (List Tok)
+  | .sysTime r sec => some [.word "system", .word "time", .word r.text, .hms (hmsOf sec).1 (hmsOf sec).2.1 (hmsOf sec).2.2]
+  | .sysClock r sec => some [.word "system", .word "clocktime", .word r.text,
+      .clock (clockHour sec) (hmsOf sec).2.1 (hmsOf sec).2.2 (clockPm sec)]
+  | .value _ cls n a r v => (valTok a v).map fun t => [.word cls, .word n, .word a, .word r.symbol, t]
+
+/-- one IF / AND / OR clause of `generate_control` (after the keyword) -/
+def parseAtom : List Tok → Option RAtom
+  | [.word "system", .word "time", .word rw, .hms h m s] => (parseRel rw).map fun r => .sysTime r (strTimeToSec h m s)
+  | [.word "system", .word "clocktime", .word rw, .clock h m s pm] => (parseRel rw).map fun r => .sysClock r (parseClock h m s pm)
+  | [.word cls, .word n, .word a, .word rw, vt] =>
+    if cls = "system" then none
+    else (parseRel rw).bind fun r => (parseVal vt).bind fun v =>
+      if nodeClasses.contains cls then some (.value true cls n a r v)
+      else if linkClasses.contains cls then some (.value false cls n a r v)
+      else none
+  | _ => none
+
+def RAtom.wf : RAtom → Prop
+  | .sysTime _ sec => 0 ≤ sec
+  | .sysClock _ sec => 0 ≤ sec ∧ sec < 86400
+  | .value isNode cls _ a _ v =>
+    (if isNode then nodeClasses.contains cls = true else (linkClasses.contains cls = true ∧ nodeClasses.contains cls = false)) ∧
+    cls ≠ "system" ∧ (a = "status" → 0 ≤ v ∧ v ≤ 2)
+
+/-- a THEN / ELSE action `CLASS name attr = value`: the reader looks the link up by name, the class word is not kept -/
+structure RAction where
+  name : String
+  attr : String
+  v : Int
+  deriving Repr, DecidableEq, Inhabited
+
+def printRAction (clsOf : String → String) (a : RAction) : Option (List Tok) :=
+  (valTok a.attr a.v).map fun t => [.word (clsOf a.name), .word a.name, .word a.attr, .word "=", t]
+
+def parseRAction : List Tok → Option RAction
+  | [.word _, .word n, .word a, .word _, vt] => (parseVal vt).map fun v => ⟨n, a, v⟩
+  | _ => none
 
 /-! ### rules as lines (`_EpanetRule.__str__`, `parse_rules_lines`, `generate_control`) -/
 
